@@ -93,7 +93,7 @@ def run(ctx):
     for ln in rej[:25]:
         bad = todo[ln - 1]
         a, b = vals[bad["i"] - 1], vals[bad["j"] - 1]
-        vlib.violation(ctx, "equality observation rejected by AnkoEq for a=%s b=%s (operands %s): %s" % (describe(a), describe(b), {"elem": "read from slices: la[0], lb[0]", "shared": "a is b[:len(a)], the same backing array", "litb": "b written as a literal", "lita": "a written as a literal"}.get(bad.get("prov"), "in variables"), {k: bad[k] for k in ("eq", "req", "ne", "rne", "inn", "rinn", "sw", "rsw", "lege", "feq")}),
+        vlib.violation(ctx, "equality observation rejected by AnkoEq for a=%s b=%s (operands %s): %s" % (describe(a), describe(b), {"elem": "read from slices: la[0], lb[0]", "shared": "a is b[:len(a)], the same backing array", "litb": "b written as a literal", "lita": "a written as a literal", "uintptr": "handed over as uintptr", "mixedint": "handed over as int32 and uint16", "uint64": "handed over as uint64"}.get(bad.get("prov"), "in variables"), {k: bad[k] for k in ("eq", "req", "ne", "rne", "inn", "rinn", "sw", "rsw", "lege", "feq")}),
                        {"kind": "eq", "a": a, "b": b, "obs": bad, "finding_key": finding_key(a, b, bad)})
     ctx.cov["evaluations"] += len(obs) * 10
     ctx.cov["distinct_nontrivial"] += len(obs)
